@@ -7,10 +7,15 @@
    execute(k+1) -- ends in execute(k) of a machine that equals the interrupted one in address, stack, variables, functions,
    DATA pointer, random state, program code, symbols and data, and differs only in the cursor column (0 after the forced line
    break), the emptied continuation slot, the trace marker and the direct-code area; the same for any machine at the prompt
-   whose slot holds a running program (after STOP, END or an error).  NOT proved: that the rest of the run does not read
-   those four differences (the column is visible to TAB, POS and print zones by design); that part, and END / STOP end to
-   end, is checked on runs by the C13 monitor. *)
-From BL Require Import Base.Prelude Lang.Ast Mach.Val Mach.Compile Mach.Listing Mach.Runtime Proofs.Slicing Proofs.ContTrip.
+   whose slot holds a running program (after STOP, END or an error).  And (Proofs/DeadFields.v, ContRun.v): no instruction
+   reads the three fields in which the resumed machine can differ while the slot is empty and tracing is off, so -- when the
+   cursor stood in column 0 at the interrupt -- the execute() calls after CONT return exactly the events the uninterrupted
+   machine returns, one call (C13_interrupt_is_transparent) or any number of calls (C13_calls_ignore_dead_fields), as long
+   as the reference run stays inside the program and keeps running.  NOT proved: the case of a cursor beyond column 0 (one
+   line break is forced by design, after which TAB, POS and print zones differ), runs that trace (TRON re-announces the
+   line), calls that cross an INPUT / INKEY$ wait, and STOP / END end to end (their reference run is another program);
+   these are checked on runs by the C13 monitor. *)
+From BL Require Import Base.Prelude Lang.Ast Mach.Val Mach.Compile Mach.Listing Mach.Runtime Proofs.Slicing Proofs.ContTrip Proofs.Dirty Proofs.DeadFields Proofs.ContRun.
 Local Open Scope N_scope.
 
 Theorem C13_interrupt_saves : forall r, r_pc r < r_entry r ->
@@ -166,3 +171,50 @@ Example C13_round_trip_applies :
   /\ r_tron trip_machine = false /\ Linked (r_prog trip_machine) /\ r_entry trip_machine = pg_direct (r_prog trip_machine)
   /\ r_stack trip_machine <> []%list /\ 0 < r_col trip_machine.
 Proof. exact trip_premises. Qed.
+
+(* ---- no run reads the three fields: instruction, loop, execute() call, calls (Proofs/DeadFields.v, ContRun.v) ---- *)
+Theorem C13_instruction_ignores_dead_fields : forall O h op, op <> OpCont -> forall c t ops r,
+  exists c' t', exec_op O h op (L c t ops r) = (L c' t' ops (fst (exec_op O h op r)), snd (exec_op O h op r)).
+Proof. exact lensed_exec_op. Qed.
+Print Assumptions C13_instruction_ignores_dead_fields.
+
+Theorem C13_run_ignores_dead_fields : forall O fuel h e0 r c t ops,
+  safe_run O e0 fuel h r -> firstnN e0 ops = firstnN e0 (l_ops (pg_link (r_prog r))) ->
+  exists c' t', exec_loop O fuel h (L c t ops r) = (L c' t' ops (fst (exec_loop O fuel h r)), snd (exec_loop O fuel h r)).
+Proof. exact run_ignores_dead_fields. Qed.
+Print Assumptions C13_run_ignores_dead_fields.
+
+Theorem C13_execute_ignores_dead_fields : forall O r k e0 c t ops,
+  r_state r = StRunning -> ls_dir_errors (r_listing r) = [] ->
+  safe_run O e0 (N.to_nat k) (has_ind r) r -> firstnN e0 ops = firstnN e0 (l_ops (pg_link (r_prog r))) ->
+  same_up_to ops (rt_execute O (L c t ops r) k) (rt_execute O r k).
+Proof. exact execute_ignores_dead_fields. Qed.
+Print Assumptions C13_execute_ignores_dead_fields.
+
+Theorem C13_calls_ignore_dead_fields : forall O ks r e0 c t ops,
+  forallb not_edit (l_ops (pg_link (r_prog r))) = true ->
+  safe_calls O e0 ks r -> firstnN e0 ops = firstnN e0 (l_ops (pg_link (r_prog r))) ->
+  same_trace ops (execs O (L c t ops r) ks) (execs O r ks).
+Proof. exact calls_ignore_dead_fields. Qed.
+Print Assumptions C13_calls_ignore_dead_fields.
+
+(* the property for interrupts: interrupt(), ?BREAK, prompt, CONT -- and the call returns what the uninterrupted call returns *)
+Theorem C13_interrupt_is_transparent : forall O r k,
+  r_state r = StRunning -> r_pc r < r_entry r -> r_dirty r = false -> r_tron r = false -> Linked (r_prog r) ->
+  r_entry r = pg_direct (r_prog r) -> r_col r = 0 -> tidy r ->
+  safe_run O (r_entry r) (N.to_nat k) (has_ind r) r ->
+  let rB := at_prompt (rt_interrupt r) in
+  rt_enter O rB cont_text = Ok (entered rB, true)
+  /\ same_up_to (firstnN (pg_direct (r_prog r)) (l_ops (pg_link (r_prog r))) ++ [OpCont; OpEnd])
+                (rt_execute O (entered rB) (N.succ k)) (rt_execute O r k).
+Proof. exact interrupt_is_transparent. Qed.
+Print Assumptions C13_interrupt_is_transparent.
+
+(* non-vacuity: a loop stopped inside a comparison with the cursor in column 0 meets every premise, for 200 instructions *)
+Example C13_transparent_applies :
+  let r := loop_machine in
+  r_state r = StRunning /\ r_pc r < r_entry r /\ r_dirty r = false /\ r_tron r = false /\ Linked (r_prog r)
+  /\ r_entry r = pg_direct (r_prog r) /\ r_col r = 0 /\ tidy r /\ r_stack r <> nil
+  /\ safe_run Drv.Driver.dummy_oracle (r_entry r) (N.to_nat 200) (has_ind r) r
+  /\ forallb not_edit (l_ops (pg_link (r_prog r))) = true.
+Proof. exact transparent_premises. Qed.
